@@ -75,16 +75,25 @@ def evaluate(cats, pairs, budget=None):
         return {}, []
     size = max(200, min(4000, len(pairs) // (NPROC * 8) + 1))
     chunks = [pairs[k:k + size] for k in range(0, len(pairs), size)]
-    t0, got, done = time.time(), {}, []
-    with mp.get_context('fork').Pool(min(NPROC, len(chunks))) as pool:
-        for k, out in enumerate(pool.imap(O.work, chunks)):
-            done.extend(chunks[k])
+    t0, got, issued = time.time(), {}, []
+
+    def feed():          # stop handing out work when the budget is used up; what was handed out is finished normally
+        for c in chunks:
+            if budget is not None and time.time() - t0 > budget:
+                return
+            issued.append(c)
+            yield c
+    pool = mp.get_context('fork').Pool(min(NPROC, len(chunks)))
+    try:
+        for out in pool.imap(O.work, feed()):
             for i, j, res, fails, strict in out:
                 got[(i, j)] = (res, fails, strict)
-            if budget is not None and time.time() - t0 > budget:
-                pool.terminate()
-                break
-    return got, done
+        pool.close()         # (not terminate(): its lock hand-over with idle workers can hang on a loaded machine)
+        pool.join()
+    except BaseException:
+        pool.terminate()
+        raise
+    return got, [p for c in issued for p in c]
 
 
 def subterms(c, acc):
@@ -174,13 +183,18 @@ def run(ctx):
         return got
 
     # ---- 1. the two shipped inventories -----------------------------------------------------------------
-    inv = {}
+    inv, row_off = {}, {}
     for lang in ('en', 'en_rebank'):
         cs = [Category.parse(s) for s in gen.inventory(lang)]
         for c in cs:
             if not (gen.wf_py(c) and O.in_domain(c)):
                 ctx.fail('shipped_not_wf', f'inventory category {c} of targets.{lang} is outside the domain of the theorems', {'text': str(c), 'lang': lang})
-        inv[lang] = [pool.add(c) for c in cs]
+        inv[lang] = list(dict.fromkeys(pool.add(c) for c in cs))
+        if not quick:      # thorough: a contiguous copy of the inventory at the head of the Coq table (the row cases address it by offset)
+            row_off[lang] = len(ctab.cats)
+            for i in inv[lang]:
+                ctab.cats.append(pool.cats[i])
+                ctab.idx.setdefault(gcat(pool.cats[i]), len(ctab.cats) - 1)
         for c in cs:       # the Coq-side domain predicate holds of every shipped category
             cases.append(f'D {ctab.add(c)} true')
             descr.append(('domain', str(c), lang, True))
@@ -314,10 +328,7 @@ def run(ctx):
 
     # ---- thorough: every pair of both inventories, one Coq case per row ------------------------------------
     for lang, ix, got in rows:
-        off = len(ctab.cats)
-        for i in ix:
-            ctab.cats.append(pool.cats[i])      # a contiguous copy of the inventory (rows address it by offset)
-        ctab.idx.update({gcat(pool.cats[i]): off + k for k, i in enumerate(ix) if gcat(pool.cats[i]) not in ctab.idx})
+        off = row_off[lang]
         pos = {i: k for k, i in enumerate(ix)}
         by_row = {}
         for (i, j), (res, _, _) in got.items():
